@@ -127,9 +127,47 @@ class Acc:
 _MOD = None
 
 
+def exception_origin(exc):
+    """'library' if the deepest frame of the traceback that belongs to either the repository under test or the harness lies in
+    the repository (the code under test raised on an input the harness considers valid), else 'harness'."""
+    repo = os.path.realpath(REPO) + os.sep
+    verif = os.path.realpath(VERIF_DIR) + os.sep
+    origin = "harness"
+    tb = exc.__traceback__
+    while tb is not None:
+        fn = os.path.realpath(tb.tb_frame.f_code.co_filename)
+        if fn.startswith(repo):
+            origin = "library"
+        elif fn.startswith(verif):
+            origin = "harness"
+        tb = tb.tb_next
+    return origin
+
+
+def library_exception_acc(shard, exc, where="shard"):
+    """An exception raised by the code under test outside any guarded call: reported as a violation (with the shard as replayable
+    case), never as a harness error - the unchanged tree runs every shard without raising."""
+    acc = Acc()
+    acc.states += 1
+    acc.transitions += 1
+    acc.ev()
+    acc.nt(("library-exception", json.dumps(jsonable(shard))[:200]))
+    acc.nt(("library-exception-2", type(exc).__name__))
+    tail = traceback.format_exception(type(exc), exc, exc.__traceback__)[-6:]
+    kind = str(shard.get("kind", "?")) if isinstance(shard, dict) else "?"
+    acc.violation(f"uncaught-exception-in-code-under-test/{kind}/{type(exc).__name__}", {"kind": "__shard__", "shard": jsonable(shard)},
+                  {"error": repr(exc)[:300], "traceback_tail": "".join(tail)[-1500:], "where": where},
+                  group=f"uncaught-exception-in-code-under-test/{type(exc).__name__}")
+    return acc
+
+
 def _worker(shard):
     try:
         return ("ok", _MOD.run_shard(shard))
+    except Exception as e:
+        if exception_origin(e) == "library":
+            return ("ok", library_exception_acc(shard, e))
+        return ("err", f"shard={json.dumps(jsonable(shard))[:400]}\n{traceback.format_exc()}")
     except BaseException:
         return ("err", f"shard={json.dumps(jsonable(shard))[:400]}\n{traceback.format_exc()}")
 
@@ -290,7 +328,16 @@ def main(module):
     if a.replay:
         with open(a.replay) as f:
             w = json.load(f)
-        acc = module.replay_case(w["case"])
+        if isinstance(w["case"], dict) and w["case"].get("kind") == "__shard__":
+            global _MOD
+            _MOD = module
+            st, r = _worker(w["case"]["shard"])
+            if st == "err":
+                print("HARNESS-ERROR in shard:\n" + r)
+                sys.exit(2)
+            acc = r
+        else:
+            acc = module.replay_case(w["case"])
         print(f"[{module.PID}] replay of {a.replay}: case={json.dumps(w['case'])[:600]}")
         if acc.viol:
             for key, (_, ww) in acc.viol.items():
